@@ -33,8 +33,24 @@ def harness_error(msg):
 
 
 def run(cmd, cwd=None, env=None, timeout=None):
-    return subprocess.run(cmd, cwd=cwd, env=env or ENV, stdout=subprocess.PIPE,
-                          stderr=subprocess.STDOUT, text=True, timeout=timeout)
+    """Run to completion. With a timeout: the whole process group is killed when it expires and the
+    result has returncode 124 and a TIMEOUT line (a child that never returns must not hang the check)."""
+    if timeout is None:
+        return subprocess.run(cmd, cwd=cwd, env=env or ENV, stdout=subprocess.PIPE,
+                              stderr=subprocess.STDOUT, text=True)
+    import signal
+    p = subprocess.Popen(cmd, cwd=cwd, env=env or ENV, stdout=subprocess.PIPE, stderr=subprocess.STDOUT, text=True,
+                         start_new_session=True)
+    try:
+        out, _ = p.communicate(timeout=timeout)
+        return subprocess.CompletedProcess(cmd, p.returncode, out, None)
+    except subprocess.TimeoutExpired:
+        try:
+            os.killpg(p.pid, signal.SIGKILL)
+        except ProcessLookupError:
+            pass
+        out, _ = p.communicate()
+        return subprocess.CompletedProcess(cmd, 124, (out or "") + "\nTIMEOUT after %d s (panicked: did not finish)\n" % timeout, None)
 
 
 def build_main():
@@ -411,17 +427,18 @@ def check_c17(tier, seed):
     out = os.path.join(sdir, "result.json")
     iters, shapes = (250, 16) if tier == "quick" else (6000, 64)
     shuttle_args = ["run", "--seed", str(seed), "--iters", str(iters), "--shapes", str(shapes)]
-    r = run([SHUTTLE_BIN] + shuttle_args + ["--out", out, "--dir", sdir])
-    if dies(r.returncode):
+    sh_timeout = 900 if tier == "quick" else 6 * 3600
+    r = run([SHUTTLE_BIN] + shuttle_args + ["--out", out, "--dir", sdir], timeout=sh_timeout)
+    if dies(r.returncode) or r.returncode == 124:
         # the scenario corrupted memory and the process was killed: the whole seeded run is the replay
         sig = "C17|schedule|process_death"
         dest_dir = os.path.join(REPLAYS, prop)
         os.makedirs(dest_dir, exist_ok=True)
         dest = os.path.join(dest_dir, "shuttle-death-seed%d.shuttlerun" % seed)
-        open(dest, "w").write("# the shuttle scenario process is killed (exit %s): memory corruption reached from safe Reference calls\n"
+        open(dest, "w").write("# the shuttle scenario process is killed or never finishes (exit %s; 124 = timeout): memory corruption or a lock-free spin reached from safe Reference calls\n"
                               "args=%s\nexpect=%s\n" % (r.returncode, " ".join(shuttle_args), sig))
-        r2 = run([SHUTTLE_BIN] + shuttle_args + ["--out", out, "--dir", sdir])
-        if not dies(r2.returncode):
+        r2 = run([SHUTTLE_BIN] + shuttle_args + ["--out", out, "--dir", sdir], timeout=sh_timeout)
+        if not (dies(r2.returncode) or r2.returncode == 124):
             harness_error("shuttle run died once (exit %s) but not when repeated" % r.returncode)
         violations += 1
         lines.append("VIOLATION property=%s replay=%s" % (prop, dest))
@@ -941,8 +958,8 @@ def main():
     if replay and replay.endswith(".shuttlerun"):
         kv = dict(l.strip().split("=", 1) for l in open(replay) if "=" in l and not l.startswith("#"))
         build_shuttle()
-        r = run([SHUTTLE_BIN] + kv["args"].split() + ["--out", "/dev/null", "--dir", os.path.join(REPLAYS, "tmp", "shuttle-replay")])
-        if dies(r.returncode):
+        r = run([SHUTTLE_BIN] + kv["args"].split() + ["--out", "/dev/null", "--dir", os.path.join(REPLAYS, "tmp", "shuttle-replay")], timeout=6 * 3600)
+        if dies(r.returncode) or r.returncode == 124:
             print("VIOLATION property=%s replay=%s" % (prop, replay))
             sys.exit(1)
         sys.exit(0)
